@@ -161,6 +161,10 @@ func (fsm *FSM) Restore(snapshot io.ReadCloser) error {
 		return err
 	}
 
+	// The snapshot replaces the state machine's state: hashicorp/raft also restores into a node that
+	// already holds data (a follower that fell behind the leader's compacted log).
+	fsm.options.GetHandlerFuncParams(context.Background(), nil, nil).Flush(-1)
+
 	// Set state
 	for database, data := range internal.FilterExpiredKeys(time.Now(), data.State) {
 		ctx := context.WithValue(context.Background(), "Database", database)
